@@ -148,60 +148,96 @@ class Codec:
             if OK - (FIXMessage, bytes_processed, valid_raw_msg_bytes)
             if ERR - (None, n_bytes_skip, None)
         """
-        valid_idx = rawmsg.find(b"8=FIX.")
+        marker = b"8=FIX."
+
+        def next_candidate(start: int) -> int:
+            # Position to resume decoding from after skipping malformed input:
+            #  the next frame start at or after `start`, else the end of the
+            #  buffer minus a trailing partial frame start (the rest of it may
+            #  arrive with the next read)
+            nxt = rawmsg.find(marker, start)
+            if nxt != -1:
+                return nxt
+            for k in range(len(marker) - 1, 0, -1):
+                if len(rawmsg) - k >= start and rawmsg.endswith(marker[:k]):
+                    return len(rawmsg) - k
+            return len(rawmsg)
+
+        valid_idx = rawmsg.find(marker)
         if valid_idx == -1:
             assert silent, "no fix header"
-            return None, len(rawmsg), None
+            return None, next_candidate(0), None
 
         parsed_length = valid_idx
+        skip_length = next_candidate(valid_idx + 1)
 
         msg = rawmsg[valid_idx:].decode("latin-1")
 
-        next_msg = msg[5:].find("8=FIX.")
-        if next_msg != -1:
-            # Next fix message added, but incomplete
-            next_msg += 5
-        else:
-            next_msg = len(msg)
-
-        encoded_msg = rawmsg[valid_idx : next_msg + valid_idx]
-
-        msg = msg[:next_msg].split(self.SOH)
-        if not msg[-1]:
-            msg = msg[:-1]
-
-        # at a minimum we require BeginString, BodyLength & Checksum
-        if len(msg) < 3:
-            assert silent, "Minimum message"
-            return (None, parsed_length, None)
-
-        tag, value = msg[0].split("=", 1)
-        if value != self.protocol.beginstring:
+        # BeginString(8) must be the first field and match the protocol
+        expected_begin = "8=" + self.protocol.beginstring + self.SOH
+        if msg[: len(expected_begin)] != expected_begin[: len(msg)]:
             logging.error(
                 "FIX Version unexpected (Recv: %s Expected: %s)"
-                % (value, self.protocol.beginstring)
+                % (msg[2 : len(expected_begin) - 1], self.protocol.beginstring)
             )
             assert silent, "protocol beginstring mismatch"
-            return (None, len(rawmsg), None)
+            return (None, skip_length, None)
 
-        toks = msg[1].split("=", 1)
+        # BodyLength(9) must be the second field
+        body_len_end = msg.find(self.SOH, len(expected_begin))
+        if len(msg) <= len(expected_begin) or body_len_end == -1:
+            toks = msg[len(expected_begin) :].split("=", 1)
+            if toks[0] == FTag.BodyLength[: len(toks[0])] and (
+                len(toks) == 1
+                or not toks[1]
+                or (toks[1].isascii() and toks[1].isdigit())
+            ):
+                # header is not complete yet, wait for more data
+                assert silent, "Minimum message"
+                return (None, parsed_length, None)
+            assert silent, f"BodyLength split error {msg}"
+            return (None, skip_length, None)
+
+        toks = msg[len(expected_begin) : body_len_end].split("=", 1)
         if len(toks) != 2:
             assert silent, f"BodyLength split error {msg}"
-            return (None, len(rawmsg), None)
+            return (None, skip_length, None)
         tag, value = toks
-
-        msg_length = len(msg[0]) + len(msg[1]) + len("10=000") + 3
         if tag != FTag.BodyLength:
             logging.error(f"*** BodyLength missing or not 2nd field *** [{tag}]: {msg}")
             assert silent, "2nd tag must be BodyLength"
-            return (None, len(rawmsg), None)
-        else:
-            msg_length += int(value)
+            return (None, skip_length, None)
+        if not (value.isascii() and value.isdigit()):
+            assert silent, "BodyLength is not a number"
+            return (None, skip_length, None)
+
+        # at a minimum we require BeginString, BodyLength & Checksum
+        if len(msg) <= body_len_end + 1:
+            assert silent, "Minimum message"
+            return (None, parsed_length, None)
+
+        # the frame is delimited by BodyLength (text that looks like a frame start
+        #   inside of a field value does not end it)
+        msg_length = body_len_end + 1 + int(value) + len("10=000") + 1
 
         # message looks incomplete
-        if msg_length > len(rawmsg):
+        if msg_length > len(msg):
             assert silent, "incomplete message"
             return (None, parsed_length, None)
+
+        trailer = msg[msg_length - 8 : msg_length]
+        if not (trailer[:4] == self.SOH + "10=" and trailer[-1:] == self.SOH):
+            # BodyLength does not lead to the CheckSum field: tolerate peers with
+            #   inexact BodyLength, take the text up to the next frame start and
+            #   let the checksum decide
+            next_msg = msg.find("8=FIX.", 1)
+            msg_length = len(msg) if next_msg == -1 else next_msg
+
+        encoded_msg = rawmsg[valid_idx : valid_idx + msg_length]
+        msg = msg[:msg_length].split(self.SOH)
+        well_terminated = not msg[-1]
+        if well_terminated:
+            msg = msg[:-1]
 
         checksum_passed = False
         parsed_length += msg_length
@@ -215,16 +251,23 @@ class Codec:
             toks = m.split("=", 1)
             if len(toks) != 2:
                 assert silent, f"incomplete tag {m}"
-                return (None, len(rawmsg), None)
+                return (None, skip_length, None)
             tag, value = toks
+            if not (tag.isascii() and tag.isdigit()):
+                assert silent, f"tag is not a number {m}"
+                return (None, skip_length, None)
 
             if tag == FTag.CheckSum:
                 cheksum_base = self.SOH.join(msg[:-1])
                 checksum = (sum([ord(i) for i in cheksum_base]) + 1) % 256
 
-                if checksum != int(value):
+                if (
+                    not (value.isascii() and value.isdigit() and len(value) == 3)
+                    or m is not msg[-1]
+                    or checksum != int(value)
+                ):
                     logging.warning(
-                        "\tCheckSum: %s (INVALID) expecting %s" % (int(value), checksum)
+                        "\tCheckSum: %s (INVALID) expecting %s" % (value, checksum)
                     )
                     assert (
                         silent
@@ -271,7 +314,7 @@ class Codec:
                     # pop the completed group off the stack
                     del repeating_groups[-1]
 
-                if tag in current_context.tags:
+                if repeating_groups and tag in current_context.tags:
                     # if the repeating group already contains this field,
                     #     start the next
                     current_context.parent.add_group(
@@ -286,8 +329,12 @@ class Codec:
                     repeating_groups.append(ctx)
                     current_context = ctx
 
-                # else add it to the current one
-                current_context.set(tag, value)
+                if not repeating_groups and tag in decoded_msg:
+                    # all groups are closed and the tag repeats on message level
+                    decoded_msg.set(tag, RepeatingTagError)
+                else:
+                    # else add it to the current one
+                    current_context.set(tag, value)
             else:
                 if tag in decoded_msg:
                     # Repeating tag found, possibly RepGrp not in protocol schema
@@ -296,8 +343,8 @@ class Codec:
                     # this isn't a repeating group field, so just add it normally
                     decoded_msg.set(tag, value)
 
-        if checksum_passed:
+        if checksum_passed and well_terminated:
             return (decoded_msg, parsed_length, encoded_msg)
         else:
             assert silent, f"Checksum probably missing: {msg}"
-            return (None, parsed_length, None)
+            return (None, skip_length, None)
